@@ -4,6 +4,7 @@ CONSTANTS
   Plains <- PlainsQ
   MaxSum = 3
   MaxN = 3
+  BigTN <- BigQ
   Depth = 1
   Emit = TRUE
 INVARIANTS TypeOK Homomorphic ProofExact VerifyDecryptExact SharesExact SealRefusesIdentityKey EmitVec
